@@ -150,7 +150,7 @@ def gen_step(rng: Prng) -> dict:
         return {"k": "edit", "t": t, "node": rng.below(64), "col": rng.choice(["x", "y", "z", "r", "type", "extra"]),
                 "val": rng.randint(-9, 99), "via": rng.choice(["node", "ndata", "getitem"])}
     if k == "cancel":
-        return {"k": "cancel", "t": t, "op": rng.choice(["cut_enter", "cut_leave", "short_tip", "traverse"]),
+        return {"k": "cancel", "t": t, "op": rng.choice(["cut_enter", "cut_leave", "short_tip", "traverse", "swc_rows", "swc_disk"]),
                 "at": rng.randint(0, 12)}
     op = rng.weighted([("sort_tree", 2), ("get_subtree", 3), ("to_subtree", 3), ("cut_enter", 2), ("cut_leave", 2),
                        ("cut_none", 1), ("redirect", 4), ("cat", 5), ("copy", 1), ("roundtrip", 1),
@@ -371,7 +371,11 @@ def apply_op(step: dict, pool: list, cache: dict):
     if op == "copy":
         return "copy", [ti], lambda: tree.copy()
     if op == "roundtrip":
-        return "swc_roundtrip", [ti], lambda: Tree.from_swc(io.StringIO(tree.to_swc()))
+        # the text numbered from 1 (the default), from 0, or from anywhere else
+        off = [None, 0, 1, 7, 1000, None][(step["t"] + n) % 6]
+        if off is None:
+            return "swc_roundtrip", [ti], lambda: Tree.from_swc(io.StringIO(tree.to_swc()))
+        return "swc_roundtrip", [ti], lambda: Tree.from_swc(io.StringIO(tree.to_swc(id_offset=off)))
     if op == "transform":
         spec = step["spec"]
 
@@ -560,6 +564,33 @@ def execute(program: dict) -> dict:
                         res = cut_tree(tree, enter=lambda nd, p: (tick(), False))
                     elif op == "cut_leave":
                         res = cut_tree(tree, leave=lambda nd, ch: (tick(), False))
+                    elif op == "swc_rows":
+                        # the SWC round trip abandoned half way: the public row generator is consumed for a few rows
+                        # and dropped (closed explicitly every other time)
+                        from swcgeom.core.swc_utils import to_swc as swc_rows
+
+                        it = swc_rows(tree.get_ndata, id_offset=[1, 0, 5][at % 3])
+                        for _ in range(at):
+                            if next(it, None) is None:
+                                break
+                        if at % 2:
+                            it.close()
+                        del it
+                        world.fired("callback_raised_mid_traversal")
+                        raise CallbackCancelled("row generator dropped")
+                    elif op == "swc_disk":
+                        # ... or written to a disk that fails part-way
+                        from simkit.world import StreamPlan
+
+                        world.mkdir("out")
+                        world.write_plans["out/aborted.swc"] = StreamPlan.from_json(
+                            {"werr_at": [0, 1, 30, 64, 257, 1000][at % 6], "werrno": 28, "buffer_size": [1, 16, 64, 8192][at % 4]})
+                        try:
+                            tree.to_swc(world.path("out/aborted.swc"))
+                        except OSError:
+                            world.fired("callback_raised_mid_traversal")
+                            raise CallbackCancelled("disk full") from None
+                        res = None
                     elif op == "short_tip":
                         res = T.CutShortTipBranch(1e9, callback=lambda br: tick())(tree)
                     else:
